@@ -17,6 +17,9 @@ def parsePath : String → Option Path
   | "pairSwapNative" => some .pairSwapNative
   | "pairSwapCw20Hook" => some .pairSwapCw20Hook
   | "pairSwapDirectCw20" => some .pairSwapDirectCw20
+  | "pairHookMalformed" => some .pairHookMalformed
+  | "trioHookMalformed" => some .trioHookMalformed
+  | "vaultHookMalformed" => some .vaultHookMalformed
   | "routerHopNative" => some .routerHopNative
   | "routerHopCw20" => some .routerHopCw20
   | "routerTwoHop" => some .routerTwoHop
